@@ -201,12 +201,16 @@ pub enum D {
     /// the library's default path (`default_emplacer()`, `push_default`, a send guard's `default_in_place`); the payload is the
     /// documented default written as an explicit initialiser (what the model runs and what the result is compared with)
     Def(Box<D>),
+    /// a message built in place and then mutated through the send guard before it is sent (IO suites only):
+    /// the initialiser, then the operations applied through `DerefMut`
+    Edited(Box<D>, Vec<Op>),
 }
 impl D {
     /// the explicit initialiser: `Def` wrappers removed at every level (the abstract state of the operation histories)
     pub fn strip_def(&self) -> D {
         match self {
             D::Def(x) => x.strip_def(),
+            D::Edited(x, ops) => D::Edited(Box::new(x.strip_def()), ops.clone()),
             D::FlexIter(v) => D::FlexIter(v.iter().map(|x| x.strip_def()).collect()),
             D::Struct(f, l) => D::Struct(f.clone(), Box::new(l.strip_def())),
             D::Enum(i, f, Some(l)) => D::Enum(*i, f.clone(), Some(Box::new(l.strip_def()))),
@@ -229,6 +233,7 @@ impl D {
             D::Enum(i, f, None) => format!("(ue {}{})", i, hs(f)),
             D::Enum(i, f, Some(l)) => format!("(ue {}{} {})", i, hs(f), l.text()),
             D::Def(x) => format!("(def {})", x.text()),
+            D::Edited(x, ops) => format!("{}{}", x.text(), ops.iter().map(|o| format!("~{}", o.text())).collect::<String>()),
         }
     }
 }
@@ -573,6 +578,16 @@ pub fn parse_ds(s: &str) -> Vec<D> {
         out.push(parse_d_at(&t, &mut i));
     }
     out
+}
+
+/// the message list of an `S` / `AS` / `AP` line: messages separated by `|`, each an initialiser optionally followed by `~op` edits
+pub fn parse_msgs(s: &str) -> Vec<D> {
+    s.split('|').filter(|m| !m.trim().is_empty()).map(|m| {
+        let mut parts = m.split('~');
+        let init = parse_ds(parts.next().unwrap()).remove(0);
+        let ops: Vec<Op> = parts.map(|o| Op::parse(o.trim())).collect();
+        if ops.is_empty() { init } else { D::Edited(Box::new(init), ops) }
+    }).collect()
 }
 
 // ---------------------------------------------------------------------------------------------
